@@ -25,8 +25,13 @@ namespace {
 std::mutex g_merge;
 Stats g_taskStats;  // merged from the task threads
 
+Sketches g_taskSketches;
+
 void mergeStats() {
   std::lock_guard<std::mutex> lk(g_merge);
+  for (auto& e : g_sketches.m)
+    g_taskSketches.m[e.first].merge(e.second);
+  g_sketches.m.clear();
   for (auto& e : g_stats.c) {
     if (e.first.size() > 4 && e.first.compare(e.first.size() - 4, 4, "_xor") == 0)
       g_taskStats.c[e.first] ^= e.second;
@@ -314,6 +319,13 @@ Outcome execute(const Plan& plan) {
         std::lock_guard<std::mutex> lk(g_merge);
         g_taskStats.c["conc.switches"] += conc.switches;
         g_taskStats.c["fault.preemptions_fired"] += conc.preemptionsFired;
+        {
+          // an interleaving = the plan's tasks + where the baton actually moved
+          uint64_t ih = hashStr(plan.text());
+          for (auto& p : schedule)
+            ih = mix64(ih ^ (uint64_t(p.task) << 56) ^ (p.at << 16) ^ uint64_t(p.to + 1) ^ (p.quantum << 40));
+          g_taskSketches.m["interleavings"].add(ih);
+        }
         t.u(conc.switches);
       } catch (Violation& v) {
         v.msg += "\n#DERIVED-PLAN\n" + derived.text();
@@ -345,6 +357,9 @@ Outcome execute(const Plan& plan) {
     for (auto& e : g_taskStats.c)
       g_stats.c[e.first] += e.second;
     g_taskStats.c.clear();
+    for (auto& e : g_taskSketches.m)
+      g_sketches.m[e.first].merge(e.second);
+    g_taskSketches.m.clear();
   }
   out.hash = out.obs = t.h;
   return out;
